@@ -183,8 +183,10 @@ def build_app(shape, handler, cell):
         if act_at(['rn']):
             return cell['act']()
         return Response('rendered:%r' % (context,))
+    from clastic import GET, POST
     routes = [Route('/x', ep, rn if shape['render'] else None, middlewares=route_mws),
-              Route('/ok', lambda: Response('fine'))]
+              Route('/ok', lambda: Response('fine')),
+              GET('/m', lambda: Response('m-get')), POST('/m', lambda: Response('m-post'))]
     return Application(routes, middlewares=app_mws, error_handler=make_handler(handler))
 
 
@@ -249,10 +251,27 @@ def run_one(ctx, app, shape, cell, pos, beh, handler, probe0, rc, accept='*/*', 
             ctx.mismatch('reraise-nonresponse', '%s: expected TypeError to escape, got %r / %s' % (what, r.exc, r.status), rc)
             return
     # the application still serves the next request exactly as before
-    p = call(app, '/ok')
-    ctx.requests += 1
-    if (p.status, p.body, p.exc) != probe0:
-        ctx.mismatch('probe-changed', '%s: afterwards GET /ok gave %s %r %r, before %r' % (what, p.status, p.body[:60], p.exc, probe0), rc)
+    check_probes(ctx, app, probe0, what, rc)
+
+
+PROBES = [('GET', '/ok'), ('GET', '/m'), ('POST', '/m'), ('HEAD', '/m'), ('GET', '/nowhere'), ('DELETE', '/m')]
+
+
+def take_probes(app):
+    out = []
+    for method, path in PROBES:
+        p = call(app, path, method)
+        out.append((p.status, p.body, repr(p.exc) if p.exc else None, p.header('Allow')))
+    return out
+
+
+def check_probes(ctx, app, probe0, what, rc):
+    now = take_probes(app)
+    ctx.requests += len(PROBES)
+    if now != probe0:
+        i = [k for k in range(len(now)) if now[k] != probe0[k]][0]
+        ctx.mismatch('probe-changed', '%s: afterwards %s %s gave %r, before the failing request %r'
+                     % (what, PROBES[i][0], PROBES[i][1], now[i][:2], probe0[i][:2]), rc)
 
 
 def nontrivial(pos, beh, handler):
@@ -265,9 +284,8 @@ def run_product(spec, ctx):
     for handler in spec['handlers']:
         cell = {}
         app = build_app(shape, handler, cell)
-        p = call(app, '/ok')
-        probe0 = (p.status, p.body, p.exc)
-        assert probe0 == (200, b'fine', None), probe0
+        probe0 = take_probes(app)
+        assert probe0[0][:2] == (200, b'fine'), probe0
         accepts = ['text/html', 'application/json', 'application/xml', 'text/plain', None]
         for pi, pos in enumerate(positions(shape)):
             for bi, beh in enumerate(beh_table()):
@@ -315,8 +333,7 @@ def history_body(case, ctx):
     ctx.current = rc
     cell = {}
     app = build_app(shape, handler, cell)
-    p = call(app, '/ok')
-    probe0 = (p.status, p.body, p.exc)
+    probe0 = take_probes(app)
     poss = positions(shape)
     for pick, bi, accept, method in steps:
         pos = poss[pick % (len(poss) + 1)] if pick % (len(poss) + 1) < len(poss) else None
@@ -355,8 +372,7 @@ def replay(case, kind, ctx):
         shape = FIXED[case['shape']]
         cell = {}
         app = build_app(shape, case['handler'], cell)
-        p = call(app, '/ok')
         beh = [b for b in beh_table() if b[0] == case['beh']][0]
-        run_one(ctx, app, shape, cell, case['pos'], beh, case['handler'], (p.status, p.body, p.exc), case, accept=case.get('accept', '*/*'))
+        run_one(ctx, app, shape, cell, case['pos'], beh, case['handler'], take_probes(app), case, accept=case.get('accept', '*/*'))
     else:
         history_body(case, ctx)
